@@ -46,9 +46,17 @@ def main():
                 picks[:10] = list(range(1, 6)) + list(range(len(K) - 4, len(K) + 1))
             cuts = sorted(rng.randint(0, total) for _ in range(max(nops - 1, 0)))
             parts = [picks[a:b] for a, b in zip([0] + cuts, cuts + [total])] if nops else []
+            if rep == 1 and total >= 2:
+                # sorted runs that meet at their ends, overlap inside, repeat, and come in descending order
+                base = sorted(set(picks))
+                n3 = max(1, len(base) // 3)
+                parts = [base[:n3 + 1], base[n3:2 * n3 + 1], base[2 * n3:], base[:n3 + 1], base[n3 - 1:n3 + 2][::1],
+                         base[2 * n3:], base[:1]]
             ops_model, ops_real = [], []
-            for p in parts:
+            for pi_, p in enumerate(parts):
                 kind = rng.choice(['Set', 'TreeSet', 'Bucket', 'BTree', 'list', 'tuple', 'int', 'set', 'iter'])
+                if rep == 1 and total >= 2:
+                    kind = ['Set', 'Set', 'Bucket', 'TreeSet', 'Set', 'BTree', 'Set'][pi_ % 7]
                 keys = [K[r - 1] for r in p]
                 if kind == 'int':
                     if not p:
